@@ -27,6 +27,14 @@ ASSUMPTIONS = ["in-place targets keeping their flag is asserted by C04/C05's his
 
 @st.composite
 def cases(draw):
+    if draw(st.integers(0, 3)) == 0:
+        # one operation on leaves of every kind in every position (each registered op gets its turn, which the DAG
+        # programs cannot guarantee): the flag rule and the no-gradient rule per operation
+        from vf.checks import c02
+
+        c = draw(c02.cases(flags=True))
+        return {"prog": c["prog"], "L": c["L"], "probe": draw(st.sampled_from(["tensor_int", "tensor_bool", "op_int", "astensor_int",
+                                                                                "Tensor_int"])), "one_op": c["op"]}
     kinds = ["var", "var", "var", "const", "const", "array", "scalar", "intarray", "inttensor", "intscalar"]
     b = draw(functional_program(max_ops=10, min_ops=2, allow_const_flag=True, allow_const_view=True,
                                 leaf_kinds=kinds, const_flag_odds=5, allow_const_false=True))
